@@ -27,7 +27,7 @@ type Profile struct {
 }
 
 var baseWeights = map[string]float64{
-	"did_bind": 0.8, "did_update": 0.3, "sid_payaddr": 0.2,
+	"did_bind": 1.2, "did_update": 0.3, "sid_payaddr": 0.2, "ready": 6,
 	"store_new": 10, "store_update": 6, "complete": 22, "cancel": 2, "terminate": 2, "renew": 3, "migrate": 2,
 	"perm": 2, "claim": 4, "add_vstorage": 2, "remove_vstorage": 2, "node_reset": 1.5, "report": 1, "recover": 1,
 	"send": 1, "delegate": 1, "undelegate": 0.7, "redelegate": 0.4, "adv": 3, "set_payaddr": 0.5, "node_create": 0.3,
@@ -434,8 +434,49 @@ func (g *Gen) genKind(k string) *Op {
 		if r.Chance(0.2) {
 			op.L = []int{g.pickActor(w.Actors).Idx}
 		}
+		// two-step flow: an account bound to a sid DID submits its own signed proposal naming a
+		// gateway; the order stays pending until that gateway sends Ready
+		if op.Pay == 0 && r.Chance(0.3) {
+			var sids []*Actor
+			for _, a := range w.Actors {
+				if did := e.sidCreatedBy(a); did != "" && s.Did.PayAddrs[did] != "" && e.sidOf(a) == did {
+					sids = append(sids, a)
+				}
+			}
+			if so := g.pickActor(sids); so != nil {
+				op.A = so.Idx
+				op.Own = so.Idx + 1
+				op.Sid = true
+				op.Prov = gw.Idx + 1
+				op.PP = gw.Idx + 1
+				e.probe("direct_store_by_sid_owner")
+			}
+		}
 		g.dead[d] = true // candidates for re-creation once gone
 		return op
+	case "ready":
+		for _, i := range r.Perm(len(e.Data)) {
+			o, ok := e.orderOf(e.Data[i], 0)
+			if !ok || o.Status != ordertypes.OrderPending {
+				continue
+			}
+			gwA := w.ByAddr[o.Provider]
+			if gwA == nil {
+				continue
+			}
+			key := fmt.Sprintf("ready|%d", o.Id)
+			if _, seen := g.silent[key]; !seen {
+				g.silent[key] = r.Chance(0.25) // the gateway waits a while (or forever) before handing out
+			}
+			if g.silent[key] {
+				if r.Chance(0.1) {
+					delete(g.silent, key)
+				}
+				continue
+			}
+			return &Op{K: "ready", A: gwA.Idx, D: i}
+		}
+		return nil
 	case "store_update":
 		ms := g.metas()
 		if len(ms) == 0 {
